@@ -79,6 +79,9 @@ type BatchSc struct {
 	Barrier  int          `json:"barrier,omitempty"` // first Barrier items wait until all of them have started (usability of the limit)
 	// DeadlineMs > 0: the context carries a deadline that many virtual ms after the run starts.
 	DeadlineMs int `json:"deadline_ms,omitempty"`
+	// LiveSlackMs > 0: the context carries a deadline that lies that many ms BEYOND the natural
+	// end of the run (measured on a deadline-free reference run of the same scenario).
+	LiveSlackMs int `json:"live_slack_ms,omitempty"`
 }
 
 func (b *BatchSc) n() int {
@@ -195,6 +198,7 @@ type batchExec struct {
 	// qp, if set, is called by the controller at every quiescent point (run not finished).
 	qp func(x *batchExec) string
 	qpFail string
+	unattributed int // fallback calls whose item could not be identified
 	node    flyt.Node
 	builder *flyt.BatchNodeBuilder
 	store   *flyt.SharedStore
@@ -444,15 +448,28 @@ func (x *batchExec) execCb(ctx context.Context, r flyt.Result) (any, error, erro
 }
 
 func (x *batchExec) fbCb(p any, inErr error) (any, error) {
+	// the item may arrive as the Result wrapper (what the batch path does today) or as the
+	// raw item value (what a single node's fallback gets): both identify the item
 	idx := -1
 	isRes := false
 	var val any
 	if r, okk := p.(flyt.Result); okk {
 		idx, isRes, val = x.decode(r), true, r.Value()
+	} else {
+		idx, val = x.decode(flyt.NewResult(p)), p
 	}
 	seq := x.begin(BEv{Kind: "fb", Item: idx, InVal: val, InIsErr: !isRes, InErr: inErr})
 	var ret any
 	var err error
+	if idx < 0 {
+		// The fallback was handed something from which the item cannot be told (e.g. the raw,
+		// nil value of a pre-made error item). The harness cannot attribute the call to a script;
+		// the whole case is then skipped by the judges. Hand the error on so that nothing is faked.
+		x.mu.Lock()
+		x.unattributed++
+		x.mu.Unlock()
+		err = inErr
+	}
 	if idx >= 0 {
 		o := x.sc.item(idx).Fb
 		switch {
@@ -693,6 +710,7 @@ func (x *batchExec) run() batchRun {
 		case <-done:
 			br.CtxErr = ctx.Err()
 			br.Events = x.snapshot()
+			x.drain()
 			return br
 		default:
 		}
@@ -758,6 +776,25 @@ func (x *batchExec) run() batchRun {
 	}
 }
 
+// drain: the run has returned. Callbacks that are still parked on the harness's own gates
+// (an implementation may return without joining in-flight executions) are released so that
+// only goroutines flyt itself keeps blocked can outlive the case.
+func (x *batchExec) drain() {
+	for i := 0; i < 1000; i++ {
+		synctest.Wait()
+		x.mu.Lock()
+		ps := x.parked
+		x.parked = nil
+		x.mu.Unlock()
+		if len(ps) == 0 {
+			return
+		}
+		for _, p := range ps {
+			close(p.gate)
+		}
+	}
+}
+
 func (x *batchExec) snapshot() []BEv {
 	x.mu.Lock()
 	defer x.mu.Unlock()
@@ -776,6 +813,10 @@ func bevStrings(evs []BEv) []string {
 // per-item reference model (the C02 model applied to one item's script)
 
 type itemModel struct {
+	// Unconstrained: within its budget the item's script returns an error Result together with
+	// a nil error. Whether that counts as a failed attempt (retry, fallback) or as a final
+	// outcome is left open by every property, so attempt and fallback counts are not asserted.
+	Unconstrained bool
 	Attempts int
 	FbRuns   bool
 	OK       bool  // item ends with a value
@@ -786,6 +827,11 @@ func (b *BatchSc) modelItem(i int) itemModel {
 	it := b.item(i)
 	n := b.budget()
 	var m itemModel
+	for a := 0; a < n; a++ {
+		if it.outcome(a).Err == 6 && !b.ExecAny {
+			m.Unconstrained = true
+		}
+	}
 	for a := 0; a < n; a++ {
 		m.Attempts = a + 1
 		o := it.outcome(a)
@@ -814,7 +860,7 @@ func slotMatches(slot flyt.Result, evs []BEv) string {
 	last := evs[len(evs)-1]
 	switch {
 	case last.RetResErr != nil:
-		if !slot.IsError() || !sameErr(slot.Error(), last.RetResErr) {
+		if !slot.IsError() || !chainHas(slot.Error(), last.RetResErr) {
 			return fmt.Sprintf("slot is %s, exec returned an error Result carrying %q", describeResult(slot), last.RetResErr)
 		}
 	case last.RetErr != nil:
